@@ -6,7 +6,7 @@ ENGINES = [
 NOTES = ("Every check imports ovld from /repo/src (asserted at start-up) and decides its property by SMT queries over path "
          "classes of the real code; bounds, stubs and don't-care regions are written into each evidence file. Exit 3 = harness error.")
 PENDING = "check under construction in this round; not claimed until its harness is committed and passes on the unchanged tree"
-NOT_APPLICABLE = {f"C{i:02d}": PENDING for i in range(1, 21)}
+NOT_APPLICABLE = {}
 
 CHECKS = {}
 CHECKS["C02"] = dict(
@@ -242,4 +242,19 @@ CHECKS["C11"] = dict(
     note=("Bounds: int unbounded, bool, str len <= 3, containers built from symbolic elements with a symbolic shape index; 40 Literal sets + 11 value-type "
           "modules quick, 320 thorough. tuple nested in tuple is outside E1's reach (see DESIGN.md). Defects repaired: 0d06ebd, 2d121dc (and afddf13, "
           "47abe4c found through C12/C15)."),
+)
+
+CHECKS["C09"] = dict(
+    engine="crosshair", category="model_checking", design_ref="DESIGN.md §6 C09",
+    technique="CrossHair (z3) symbolic execution of the real rewritten methods on symbolic int inputs against the same source text compiled unchanged with recurse / call_next bound to a plain-Python reference dispatcher; acceptance pass over every generated body",
+    text=("38 method bodies place recurse / call_next / self-name calls in the expression contexts of the statement (nested calls, comprehension "
+          "element / condition / nested, dict and set comprehensions, lambda, nested and decorated def, conditional and boolean operators, chained "
+          "comparison, f-string, keyword / starred / double-starred arguments, walrus, try/finally, try/except, generator with laziness, closures over "
+          "one and two factory variables, keyword-only default, self name, exceptions raised after and inside the call, while loop, two positions with "
+          "nested calls). Each sits on a linear chain A -> B -> C (+ str) so that the meaning of recurse and call_next is known without ovld. CrossHair "
+          "must confirm for all inputs in range that the registered method and the unmodified source with plain callables agree on result or exception "
+          "type, the order of side effects, generator laziness, and the file and line reported for an exception; every body must be accepted."),
+    note=("The program quantifier is enumerated (fixed grammar sample); only the input quantifier (ints 0..3 quick / 0..4 thorough per position) is "
+          "symbolic. Bodies of the two recorded findings (call in a comprehension's iterable; call_next with */** / keyword-for-positional) are "
+          "excluded by name. Defect repaired: 5107a7d."),
 )
